@@ -92,6 +92,10 @@ func genC10(p *Plan, r *RNG) {
 		p.Ops = append(p.Ops, Op{Kind: "fin", At: gap(int64(r.Range(0, 100)) * ms)})
 	case 1:
 		p.Ops = append(p.Ops, Op{Kind: "rst", At: gap(int64(r.Range(0, 100)) * ms)})
+	case 3:
+		// the end of the stream comes with the last bytes: a Read that returns n > 0 and io.EOF
+		p.Ops = append(p.Ops, Op{Kind: "fin", At: gap(0)})
+		eofWithData(p)
 	case 2:
 		// bytes that cannot begin a frame
 		g := r.Bytes(r.Range(20, 40))
